@@ -162,6 +162,19 @@ func checkC01(c *ctx) {
 			reportBuild(c, "C01 built segment vs spec_of_batch (dictionaries and postings)", b, mode, parts)
 			return
 		}
+		// the model of the builder ALGORITHM (BuildAlg.v: ids in first-seen order, hits appended per
+		// document, keys sorted last; term orders scrambled by i) must produce what zapx produced
+		if i%4 == 0 {
+			ba := ask(c, sx.L(sx.N(zh.ReqBuilder), b.Sx(), sx.N(uint64(i))))
+			if _, isErr := sx.IsErr(ba); isErr {
+				mustH(fmt.Errorf("model rejected the builder request"))
+			}
+			if !sx.Equal(ba, obs.L[pDicts]) {
+				c.Violation(fmt.Sprintf("C01 dictionaries of the built segment differ from the extracted builder algorithm (BuildAlg.run_build, orders scrambled by %d)\nchunkMode=%d\nbatch: %s\nobserved: %s\nmodel: %s", i, mode, clip(b.Sx().String()), clip(obs.L[pDicts].Pretty()), clip(ba.Pretty())), false)
+				return
+			}
+			c.Count("builder_algorithm_runs")
+		}
 		if bad := parseAgainst(c, sb, spec, parts); bad != "" {
 			reportBuild(c, "C01/C09 bytes of the built segment parsed by the extracted v16 parser differ from the spec: "+bad, b, mode, parts)
 			return
